@@ -639,14 +639,23 @@ func Max(a Matrix) float64 {
 		return max
 	case RawTriangular:
 		rm := m.RawTriangular()
+		// The diagonal of a unit triangular matrix is
+		// one and its stored values are not referenced.
+		var k int
+		if rm.Diag == blas.Unit {
+			k = 1
+		}
 		// The max of a triangular is at least 0 unless the size is 1.
 		if rm.N == 1 {
+			if k == 1 {
+				return 1
+			}
 			return rm.Data[0]
 		}
-		max := 0.0
+		max := float64(k)
 		if rm.Uplo == blas.Upper {
 			for i := 0; i < rm.N; i++ {
-				for _, v := range rm.Data[i*rm.Stride+i : i*rm.Stride+rm.N] {
+				for _, v := range rm.Data[i*rm.Stride+i+k : i*rm.Stride+rm.N] {
 					if v > max {
 						max = v
 					}
@@ -655,7 +664,7 @@ func Max(a Matrix) float64 {
 			return max
 		}
 		for i := 0; i < rm.N; i++ {
-			for _, v := range rm.Data[i*rm.Stride : i*rm.Stride+i+1] {
+			for _, v := range rm.Data[i*rm.Stride : i*rm.Stride+i+1-k] {
 				if v > max {
 					max = v
 				}
@@ -715,14 +724,23 @@ func Min(a Matrix) float64 {
 		return min
 	case RawTriangular:
 		rm := m.RawTriangular()
+		// The diagonal of a unit triangular matrix is
+		// one and its stored values are not referenced.
+		var k int
+		if rm.Diag == blas.Unit {
+			k = 1
+		}
 		// The min of a triangular is at most 0 unless the size is 1.
 		if rm.N == 1 {
+			if k == 1 {
+				return 1
+			}
 			return rm.Data[0]
 		}
 		min := 0.0
 		if rm.Uplo == blas.Upper {
 			for i := 0; i < rm.N; i++ {
-				for _, v := range rm.Data[i*rm.Stride+i : i*rm.Stride+rm.N] {
+				for _, v := range rm.Data[i*rm.Stride+i+k : i*rm.Stride+rm.N] {
 					if v < min {
 						min = v
 					}
@@ -731,7 +749,7 @@ func Min(a Matrix) float64 {
 			return min
 		}
 		for i := 0; i < rm.N; i++ {
-			for _, v := range rm.Data[i*rm.Stride : i*rm.Stride+i+1] {
+			for _, v := range rm.Data[i*rm.Stride : i*rm.Stride+i+1-k] {
 				if v < min {
 					min = v
 				}
@@ -889,16 +907,22 @@ func Sum(a Matrix) float64 {
 		return sum
 	case RawTriangular:
 		rm := rma.RawTriangular()
+		// The diagonal of a unit triangular matrix is
+		// one and its stored values are not referenced.
+		var k int
+		if rm.Diag == blas.Unit {
+			k = 1
+		}
 		var startIdx, endIdx int
 		for i := 0; i < rm.N; i++ {
 			// Start and end index for this triangle-row.
 			switch rm.Uplo {
 			case blas.Upper:
-				startIdx = i
+				startIdx = i + k
 				endIdx = rm.N
 			case blas.Lower:
 				startIdx = 0
-				endIdx = i + 1
+				endIdx = i + 1 - k
 			default:
 				panic(badTriangle)
 			}
@@ -906,7 +930,7 @@ func Sum(a Matrix) float64 {
 				sum += v
 			}
 		}
-		return sum
+		return sum + float64(k*rm.N)
 	case RawMatrixer:
 		rm := rma.RawMatrix()
 		for i := 0; i < rm.Rows; i++ {
